@@ -859,6 +859,24 @@ def sweep_configs(tier):
             cfg["fixed_schedule"] = [first] * step + [second] * (3 * solo)
             cfg["family"] = "single_preemption"
             out.append(cfg)
+    # double pre-emption: P0 paused at step i, P1 paused at step j, P2 runs to completion, then P1, then P0
+    dstride = 24 if tier == "quick" else 8
+    for i in range(2, solo + 1, dstride):
+        for j in range(2, solo + 1, dstride):
+            cfg = base_config([{"name": "P%d" % k, "loads": [[model, "double"]], "start_at": 0} for k in range(3)])
+            cfg["cc_plans"] = [{"cuts": [0.5], "mode": "append", "fail": None}] * 3
+            cfg["fixed_schedule"] = ["P0"] * i + ["P1"] * j + ["P2"] * (3 * solo) + ["P1"] * (3 * solo)
+            cfg["family"] = "double_preemption"
+            out.append(cfg)
+    # ... and the same with P1 killed (with its compiler) where it was paused
+    for i in range(2, solo + 1, dstride):
+        for j in range(2, solo + 1, dstride):
+            cfg = base_config([{"name": "P%d" % k, "loads": [[model, "double"]], "start_at": 0} for k in range(3)])
+            cfg["cc_plans"] = [{"cuts": [0.5], "mode": "append", "fail": None}] * 3
+            cfg["fixed_schedule"] = ["P0"] * i + ["P1"] * j + ["P2"] * (3 * solo)
+            cfg["kills"] = [{"target": "P1", "group": True, "when": {"step": i + j}}]
+            cfg["family"] = "preemption_plus_kill"
+            out.append(cfg)
     # a parent that has built another model, then forks two workers that race on this one
     other = "sphere" if model != "sphere" else "cylinder"
     for seed in range(6 if tier == "quick" else 24):
